@@ -67,6 +67,9 @@ def fails(ctx, path):
         elif kind == 'fs-path-contains':
             if not any(bytes.fromhex(arg) in pth for pth in core.parse_fs(impl[idx])):
                 return False
+        elif kind == 'fs-path-lacks':
+            if any(bytes.fromhex(arg) in pth for pth in core.parse_fs(impl[idx])):
+                return False
         elif kind == 'out-contains':
             if bytes.fromhex(arg) not in line.out:
                 return False
